@@ -71,7 +71,8 @@ class Statistics(Contract):
     def call(self, S, case, b):
         shim.LINALG_HOOKS["svd"] = svd_stub
         try:
-            return run_optimizer(S, b, S.symbolic, create_result=True, jac=True)
+            # one further evaluation after the returned point: the result must describe the returned point, not the last call
+            return run_optimizer(S, b, S.symbolic, create_result=True, jac=True, post_evals=1)
         finally:
             shim.LINALG_HOOKS.pop("svd", None)
 
@@ -129,9 +130,11 @@ class Statistics(Contract):
         for x in addp:
             tot = tot + x * x
         yield "chi_square_equals_reported_weighted_residuals_and_penalties", L.eq(res.chi_square, tot)
-        yield "additional_penalty_per_group", len(res.additional_penalty) == len(out.group_names) and L.and_(
-            *[L.eq(a, c) for grp, pr in zip(res.additional_penalty, pens_ref) for a, c in zip(flat(grp), pr)]
-        ) and all(len(flat(grp)) == len(pr) for grp, pr in zip(res.additional_penalty, pens_ref))
+        yield "additional_penalty_per_group", L.and_(
+            len(res.additional_penalty) == len(out.group_names),
+            all(len(flat(grp)) == len(pr) for grp, pr in zip(res.additional_penalty, pens_ref)),
+            *[L.eq(a, c) for grp, pr in zip(res.additional_penalty, pens_ref) for a, c in zip(flat(grp), pr)],
+        )
         yield "cost_is_half_chi_square", L.eq(res.cost * 2, res.chi_square)
         yield "reduced_chi_square", L.eq(res.reduced_chi_square * dof, res.chi_square)
         rm = res.root_mean_square_error
